@@ -42,6 +42,7 @@ func All(tier string) []Fam {
 	out = append(out, f6(th)...)
 	out = append(out, f7(th)...)
 	out = append(out, f8(th)...)
+	out = append(out, f9(th)...)
 	return out
 }
 
